@@ -39,24 +39,33 @@ func (c mixedChecker) Check(nodeLex lexeme.LexEvent) (err errors.Error) {
 	case lexeme.LiteralEnd:
 		validator.ValidateLiteralValue(c.node, nodeLex.Value()) // can panic
 	case lexeme.ArrayBegin:
-		c.checkEmptyArray() // can panic
+		c.checkEmptyBranchNode(json.TypeArray) // can panic
+	case lexeme.ObjectBegin:
+		c.checkEmptyBranchNode(json.TypeObject) // can panic
 	}
 
 	return nil
 }
 
-// checkEmptyArray checks the array EXAMPLE the "or" rule is written on against
-// the rule-set. Such an array has no items (ErrInvalidChildNodeTogetherWithOrRule).
-func (c mixedChecker) checkEmptyArray() {
+// checkEmptyBranchNode checks the array or object EXAMPLE the "or" rule is
+// written on against the rule-set. Such an EXAMPLE has no children
+// (ErrInvalidChildNodeTogetherWithOrRule).
+func (c mixedChecker) checkEmptyBranchNode(exampleType json.Type) {
 	if c.node.Constraint(constraint.AnyConstraintType) != nil {
 		return
 	}
 
-	if t := c.node.Type(); t != json.TypeArray {
-		panic(errors.Format(errors.ErrInvalidValueType, json.TypeArray.String(), t.String()))
+	t := c.node.Type()
+	if t != exampleType {
+		panic(errors.Format(errors.ErrInvalidValueType, exampleType.String(), t.String()))
 	}
 
 	c.node.ConstraintMap().EachSafe(func(_ constraint.Type, v constraint.Constraint) {
+		// A rule-set without the "type" rule takes the JSON type of the EXAMPLE,
+		// which none of the rules for literals (enum, min, regex...) can accept.
+		if !v.IsJsonTypeCompatible(t) {
+			panic(errors.Format(errors.ErrUnexpectedConstraint, v.Type().String(), t.String()))
+		}
 		if av, ok := v.(constraint.ArrayValidator); ok {
 			av.ValidateTheArray(0) // can panic
 		}
